@@ -4,6 +4,7 @@ import (
 	"encoding/json"
 	"fmt"
 	"math/rand"
+	"reflect"
 	"runtime"
 	"sort"
 	"strings"
@@ -131,6 +132,23 @@ func runC21(r *lib.Run) {
 			return n + fmt.Sprint(err)
 		}},
 	}
+	// path structs hanging off shared ancestors, resolved for the first time by several goroutines at once
+	// (another read-only operation on shared objects; only when a configuration with path structs is linked)
+	for _, pn := range lib.Names() {
+		pc := lib.Get(pn)
+		if pc.PathRoot == nil {
+			continue
+		}
+		for k, ps := range c21PathStructs(pc, 24) {
+			ps := ps
+			opsA = append(opsA, concOp{fmt.Sprintf("ResolvePath#%d", k), func() string {
+				p, _, errs := ygot.ResolvePath(ps)
+				return p.String() + fmt.Sprint(errs)
+			}})
+		}
+		r.Hit("path-structs-linked")
+		break
+	}
 	for k, p := range paths {
 		p := p
 		opsA = append(opsA, concOp{fmt.Sprintf("GetNode#%d", k), func() string {
@@ -140,7 +158,13 @@ func runC21(r *lib.Run) {
 				out = append(out, n.Path.String()+fmt.Sprintf("%T", n.Data))
 			}
 			sort.Strings(out)
-			return strings.Join(out, ";") + fmt.Sprint(err)
+			// a wildcard query fails on the first entry (in map order) that lacks the rest of the
+			// path: which entry the message names is not a property of the schedule
+			es := ""
+			if err != nil {
+				es = strings.Join(lib.ErrClasses(err.Error()), "|")
+			}
+			return strings.Join(out, ";") + es
 		}})
 	}
 	for k, v := range leafVals {
@@ -321,4 +345,51 @@ func errCanon(err error) string {
 	}
 	sort.Strings(parts)
 	return strings.Join(parts, " | ")
+}
+
+// c21PathStructs builds up to max path structs below one fresh root by calling the generated
+// accessors with fixed key arguments; children keep a pointer to their parent, so the set shares
+// its ancestors the way application code does.
+func c21PathStructs(cfg *lib.Cfg, max int) []ygot.PathStruct {
+	var out []ygot.PathStruct
+	var walk func(v reflect.Value, depth int)
+	walk = func(v reflect.Value, depth int) {
+		if depth > 6 {
+			return
+		}
+		t := v.Type()
+		for mi := 0; mi < t.NumMethod() && len(out) < max; mi++ {
+			m := t.Method(mi)
+			if m.Type.NumOut() != 1 || !m.Type.Out(0).Implements(pathStructT) || strings.HasPrefix(m.Name, "With") {
+				continue
+			}
+			args := make([]reflect.Value, m.Type.NumIn()-1)
+			ok := true
+			for a := range args {
+				at := m.Type.In(a + 1)
+				switch at.Kind() {
+				case reflect.String:
+					args[a] = reflect.ValueOf("k1").Convert(at)
+				case reflect.Int8, reflect.Int16, reflect.Int32, reflect.Int64:
+					args[a] = reflect.ValueOf(int64(1)).Convert(at)
+				case reflect.Uint8, reflect.Uint16, reflect.Uint32, reflect.Uint64:
+					args[a] = reflect.ValueOf(uint64(1)).Convert(at)
+				default:
+					ok = false
+				}
+			}
+			if !ok {
+				continue
+			}
+			child := v.Method(mi).Call(args)[0]
+			ps, isPS := child.Interface().(ygot.PathStruct)
+			if !isPS {
+				continue
+			}
+			out = append(out, ps)
+			walk(child, depth+1)
+		}
+	}
+	walk(reflect.ValueOf(cfg.PathRoot()), 0)
+	return out
 }
